@@ -107,6 +107,7 @@ type Exec struct {
 	inlined map[string]bool
 	cellN   int
 	cellCache map[*ssa.Alloc]bool
+	usedLemmas []string
 }
 
 const maxForks = 6000
